@@ -165,6 +165,18 @@ def read_fault(rng, ident):
     return scn.line("scn", ident, s, extra="nt=1 family=read-fault-%s-%s expectend=stopped handlers=%d expect=%s" % (kind, where, hs, ",".join(exp)))
 
 
+def notfound_behind_stalled_writer(rng, ident, pause):
+    """a call naming an unregistered method arrives while the writer is stuck inside Write (the peer has stopped reading for a
+    while): however long that lasts, once the peer reads again the call is answered with the not-found error, and the
+    connection goes on working"""
+    bad = rng.choice([b"p.nosuch", b"q.m"])
+    s = ["observe/start", "watch/on", "stallw/on", scn.notify(1, nowait=True), "waitinwrite",
+         "feednowait/" + scn.feed_call(77, 500, meth=bad)[5:], "sleep/%d" % pause, "stallw/off", "await/n1", "settle",
+         scn.call(2), "replyto/2", "await/c2", "settle", "observe/end"]
+    name = b"nosuch" if bad.startswith(b"p.") else b"q"
+    return scn.line("scn", ident, s, extra="nt=1 family=not-found-behind-stalled-writer expectend=open handlers=0 expect=1:ok,2:ok expectnf=77:%s" % name.hex())
+
+
 def explore(ctx):
     rng, tier = ctx["rng"], ctx["tier"]
     if ctx.get("replay"):
@@ -182,6 +194,8 @@ def explore(ctx):
             lines.append(close_race(rng, "r%d" % n)); n += 1
         for _ in range({"quick": 60, "thorough": 600, "search": 120}[tier]):
             lines.append(read_fault(rng, "t%d" % n)); n += 1
+        for pause in {"quick": [50, 2600], "thorough": [10, 300, 1200, 2600, 5200], "search": [50, 2600]}[tier]:
+            lines.append(notfound_behind_stalled_writer(rng, "s%d" % n, pause)); n += 1
     scn_lines = [l for l in lines if not l.startswith("e2e ")]
     triples, tie = C.run_both(ctx, "TestVerifScn", scn_lines, go_timeout=1500) if scn_lines else ([], [])
     if not ctx.get("replay") or any(l.startswith("e2e ") for l in lines):
